@@ -87,6 +87,8 @@ class C19(Check):
         # base lists some of whose elements FAIL when evaluated (an ordinary list of failing thunks behaves the same way:
         # reading the element raises exactly that exception, nothing else is affected, constructing ops never notice)
         out += [b + (s, shards, c, "raisers") for c in scheds for b in [(4, 1), (2, 2)] for s in range(shards)]
+        # one LONG base list (more elements than any small-integer or small-container fast path covers), short alphabet
+        out.append((300, 0, 0, 1, "L"))
         # video-backed lazy lists (menpo.io.input.video) read through a fake ffmpeg process: here reading is stateful
         # (the reader keeps a pipe and a position), so every SEQUENCE of reads is a distinct state
         n_frames = 6 if self.tier == "quick" else 7
@@ -285,6 +287,8 @@ class C19(Check):
             return self._ops_video(st, level)
         n_lists = len(st["model"])
         out = []
+        if st["sched"] == "L":
+            return self._ops_long(st, level)
         sched = self.SCHEDULES[st["sched"]]
         if level >= len(sched):
             return []
@@ -345,6 +349,26 @@ class C19(Check):
                 out.append(("fancy", j, "range", rg))
         if level == 0 and st["shard"][1] > 1:
             out = [o for i, o in enumerate(out) if i % st["shard"][1] == st["shard"][0]]
+        return out
+
+    def _ops_long(self, st, level):
+        """the long list: every constructing op once, no length cap, then reads at both ends and across 255/256/257"""
+        if level >= 2:
+            return []
+        j = 0 if level == 0 else len(st["model"]) - 1
+        n = len(st["model"][j])
+        if n < 200:
+            return []  # (an op on the long list that gave a short one: nothing more to learn here)
+        out = [("len", j)]
+        for i in (0, 1, 255, 256, 257, n - 1, -1, -n, n, -n - 1):
+            if -n - 1 <= i <= n:
+                out.append(("get", j, i))
+        if n:
+            out.append(("getnp", j, n - 1))
+        if level == 0:
+            out += [("copy", j), ("map1", j, "f"), ("mapn", j, 0), ("mapn", j, 1), ("mapn", j, -1), ("mapn", j, "tuple"), ("repeat", j, 1), ("repeat", j, "np2")]
+            out += [("add", j, j), ("addplain", j, 2), ("slice", j, None, None, -1), ("slice", j, 250, 260, None), ("slice", j, None, None, 2)]
+            out += [("fancy", j, "ndarray", (n - 1, 0, 256, 257)), ("fancy", j, "range", (n - 1, -1, -1)), ("fancy", j, "list", tuple(range(n)))]
         return out
 
     def is_query(self, op):
@@ -577,7 +601,7 @@ class C19(Check):
 
     # ------------------------------------------------------------------ reporting
     def vacuity(self, notes, stats):
-        need = ["vget:forward-jump", "vget:backward-or-same", "vget:next", "vget:derived", "get:IndexError", "mapn:ValueError", "fancy:IndexError", "repeat:len0", "slice:len0", "iter:len0", "read:element-fails", "iter:element-fails", "get:element-fails-depth0", "get:element-fails-depth1"]
+        need = ["vget:forward-jump", "vget:backward-or-same", "vget:next", "vget:derived", "get:IndexError", "mapn:ValueError", "fancy:IndexError", "repeat:len0", "slice:len0", "iter:len0", "read:element-fails", "iter:element-fails", "mapn:len300", "fancy:len300", "repeat:len600", "get:element-fails-depth0", "get:element-fails-depth1"]
         out = ["outcome %s never produced" % n for n in need if not notes.get(n)]
         if not notes.get("read:depth2"):
             out.append("no element of a doubly derived list was ever read")
